@@ -19,6 +19,7 @@ import (
 	governanceState "github.com/oasisprotocol/oasis-core/go/consensus/cometbft/apps/governance/state"
 	registryState "github.com/oasisprotocol/oasis-core/go/consensus/cometbft/apps/registry/state"
 	stakingState "github.com/oasisprotocol/oasis-core/go/consensus/cometbft/apps/staking/state"
+	"github.com/oasisprotocol/oasis-core/go/storage/mkvs"
 	governance "github.com/oasisprotocol/oasis-core/go/governance/api"
 	registry "github.com/oasisprotocol/oasis-core/go/registry/api"
 	staking "github.com/oasisprotocol/oasis-core/go/staking/api"
@@ -466,3 +467,33 @@ func (g *TxGen) RefreshTx(ek *EntityKeys, nk *NodeKeys, expiration beacon.EpochT
 		Signer: nk.Name, Addr: addr, Method: registry.MethodRegisterNode, Nonce: nonce, Gas: gas, Note: "liveness refresh", ExpectAuthOK: true,
 	}
 }
+
+// NewWorkingView opens a view on the WORKING state of the block currently being executed (valid
+// between BeginBlock and Commit); it shows what an application sees at that point.
+func NewWorkingView(r *Replica) (*View, error) {
+	cx := r.Srv.State().NewContext(cmtapi.ContextEndBlock)
+	v := &View{R: r, cx: cx, ctx: context.Background()}
+	v.St = stakingState.NewImmutableState(cx.State())
+	v.Gov = governanceState.NewImmutableState(cx.State())
+	v.Reg = registryState.NewImmutableState(cx.State())
+	ep, _, err := beaconState.NewImmutableState(cx.State()).GetEpoch(v.ctx)
+	if err != nil {
+		cx.Close()
+		return nil, err
+	}
+	v.Epoch = ep
+	return v, nil
+}
+
+// Ctx returns the context to use with the typed state accessors of the view.
+func (v *View) Ctx() context.Context { return v.ctx }
+
+// Tree returns the raw state tree of the view.
+func (v *View) Tree() cmtapiTree { return v.cx.State() }
+
+type cmtapiTree = interface {
+	Get(ctx context.Context, key []byte) ([]byte, error)
+}
+
+// KV returns the view's state as an immutable key-value tree (for typed state wrappers).
+func (v *View) KV() mkvs.ImmutableKeyValueTree { return v.cx.State() }
